@@ -95,7 +95,11 @@ func (a *Allocator) Allocate(hint net.IPNet) (ret net.IPNet, err error) {
 
 // Free returns the given prefix to the available pool if it was taken.
 func (a *Allocator) Free(prefix net.IPNet) error {
-	idx, err := a.toIndex(prefix.IP.Mask(prefix.Mask))
+	base := prefix.IP.Mask(prefix.Mask)
+	if !a.contains(base) {
+		return fmt.Errorf("Could not find prefix in pool: %s is not in %s", prefix.String(), a.containing.String())
+	}
+	idx, err := a.toIndex(base)
 	if err != nil {
 		return fmt.Errorf("Could not find prefix in pool: %w", err)
 	}
